@@ -110,6 +110,16 @@ var triggers = []trigger{
 			return c.Cfg.V >= mach.MVP70 && c.Cfg.Cores >= 2 && f.conflictSameLine && isMismatch(class)
 		},
 	},
+	{
+		// MVP-7.1/8: the control unit computes a memory instruction's address at
+		// dispatch (to pin it to the core owning the line) from registers whose
+		// older writers have not executed yet: the cycle count depends on a dead
+		// register value.
+		id: "KF-T1", props: []string{"C12"},
+		match: func(c *core.Case, f *features, class string) bool {
+			return (c.Cfg.V == mach.MVP71 || c.Cfg.V == mach.MVP80) && class == "value-dependent-cycles" && f.memBaseWrittenRecently
+		},
+	},
 }
 
 // matchTrigger returns the id of the first OPEN known finding of property prop
